@@ -70,7 +70,18 @@ TFuzz ==
   /\ l' = l + 1
   /\ UNCHANGED vars
 
-TNext == TCase \/ TStep \/ TRun \/ TFuzz
+\* Memcheck(vgexit, reports): the same command line and input replayed under valgrind memcheck on the plain build
+\* (use of uninitialised memory is invisible to ASan / UBSan); 97 is valgrind's --error-exitcode
+TMemcheck ==
+  /\ l <= NLines /\ TraceLog[l].e = "Memcheck" /\ pc \in {"idle", "exit"}
+  /\ LET ev == TraceLog[l]
+         invs == << I("NoUninitialisedUse", ev.vgexit # 97 /\ ev.reports = 0),
+                    I("SameExitUnderMemcheck", ev.timeout = 0 /\ ev.vgexit # 97 => ev.vgexit = ev.exit) >>
+     IN /\ viol' = viol \o Failed(invs, l, ev.sig) /\ nchecked' = nchecked + Len(invs)
+  /\ l' = l + 1
+  /\ UNCHANGED vars
+
+TNext == TCase \/ TStep \/ TRun \/ TFuzz \/ TMemcheck
 TSpec == TInit /\ [][TNext]_<<vars, tvars>>
 
 \* invariants of CLI.tla, evaluated on the replayed machine states
